@@ -1,6 +1,6 @@
 (* C08 -- Blocks render independently, in order (partial: see MANIFEST level text). *)
 From Rimu Require Import Base Unicode Regex RegexAnalysis RegexParse Str Types Tables Guards State Inline Block
-  Frame FrameBlock FrameInst OptionsLemmas MiscLemmas MoreLemmas Plain TableFacts PlainDoc Lines RegexSem MatchLemmas MatchExact Locality.
+  Frame FrameBlock FrameInst OptionsLemmas MiscLemmas MoreLemmas Plain TableFacts PlainDoc Lines RegexSem MatchLemmas MatchExact ExactTable Locality.
 
 (* the block loop emits the rendering of the first block followed by the rendering of the rest,
    from the state and reader the first block left *)
